@@ -190,6 +190,10 @@ def rule_rights_monotone(ctx):
             fp = fields_of(s["lhs"])
             # a store into one of the four rights: by field path, or through a `&mut CastlingStatus` selected elsewhere
             through_ref = bool(s["lhs"]["p"]) and s["lhs"]["p"][0] == "*" and s["lhs"].get("ty", "").endswith("castling::CastlingStatus") and "castling_rights" not in fp
+            # ... or into a field of a local copy of the rights (`let mut rights = m.castling_rights; rights.f = ..; m.castling_rights = rights`)
+            local_copy = bool(fp) and fp[0] in RIGHTS and b.locals[s["lhs"]["l"]]["ty"].endswith("castling::CastlingRights")
+            if local_copy:
+                fp = ("castling_rights",) + fp
             if through_ref:
                 fp = fp + ("<through a reference>",)
             if ("castling_rights" in fp and fp[-1] != "castling_rights") or through_ref:
@@ -215,7 +219,11 @@ def rule_rights_monotone(ctx):
     ok = len(cc) == 1 and len(pushes) == 1
     if ok:
         a = sym.operand(cc[0][1]["args"][1])
-        ok = mir.strip_refs(a) == ("arg", mk.local_name(2)) and mk.dominates(cc[0][0], pushes[0][0]) and whole and mk.dominates(whole[0][0], cc[0][0])
+        ok = mir.strip_refs(mir.strip_copies(a)) == ("arg", mk.local_name(2)) and mk.dominates(cc[0][0], pushes[0][0]) and whole and mk.dominates(whole[0][0], cc[0][0])
+        if ok and not cc[0][1]["args"][1].get("move", cc[0][1]["args"][1].get("copy", {})).get("ty", "&").startswith("&"):
+            # the record goes in by value: what is pushed must be what the checks hand back
+            pv = mir.strip_copies(sym.operand(pushes[0][1]["args"][1]))
+            ok = pv[0] == "call" and pv[1] == CASTLE_CHECKS and C.returns_param(ix, CASTLE_CHECKS, ("castling_rights",)) is not None
     ctx.check(ok, "make_move:revocations-on-pushed-record", "rights are copied, then revoked on `new_move`, then `new_move` is pushed", mk.where(cc[0][0] if cc else 0),
               bad_what="the castling checks do not run on the record that is pushed, or not between the copy and the push")
     ctx.floor("castling-right assignments on the make_move path", n, 1)
@@ -412,8 +420,10 @@ RULES = [("accessors", rule_accessors), ("revocation-table", rule_revocation_tab
          ("fullmove", rule_fullmove), ("placement", rule_placement), ("history-record", rule_history_record)]
 # "remembers exactly the earlier positions" is about keys: the key recorded for a position must be the key of that position
 # (C04 pairing rules), also after the make/unmake probes of move generation
-RULES += engine.premise_rules("c04", ["piece-pair", "turn-pair", "ep-pair", "castle-pair", "castle-revert"])
+RULES += engine.premise_rules("c04", ["clone", "piece-pair", "turn-pair", "ep-pair", "castle-pair", "castle-revert"])
 # the bookkeeping reads the move's flags: the move record carries what the generator put into it
+# keys stand for positions only as far as comparing two keys compares the whole word (C05.key-identity)
+RULES += engine.premise_rules("c05", ["key-identity"])
 RULES += engine.premise_rules("c01", ["ply-builder", "capture-src", "leaf-accessors"])
 # "from the standard start or any valid FEN": the first history record (clock, rights) is what the FEN said
 RULES += engine.premise_rules("c07", ["fields", "history", "build"])
